@@ -19,7 +19,7 @@ from tradingenv.broker.fees import BrokerFees
 from tradingenv.broker.broker import EndOfEpisodeError
 from tradingenv.broker.trade import Trade
 
-from vf import ep, core
+from vf import alone, ep, core
 
 PROP = "C10"
 LEVEL = "exploration"
@@ -39,8 +39,9 @@ RULE = ("Twin runs compared bit-for-bit on canonical digests (observation arrays
         "episode or an interleaving with at least one stateful-feature or chain environment.")
 ASSUMPTIONS = ["call-level interleavings only (single-threaded); thread pre-emption inside step() is outside the property's quantifier",
                "chain spans cover every time used in the process except in the dedicated K3 scenario"]
-REQUIRED = ["C10:fresh-identical", "C10:after-history", "C10:interleaved", "C10:all-interleavings"]
-REQUIRED_CATS = ["kind:chain", "kind:spot", "kind:discrete", "history:abandon", "history:full", "history:otherfold", "history:error",
+REQUIRED = ["C10:fresh-identical", "C10:after-history", "C10:interleaved", "C10:all-interleavings",
+            "C10:same-as-alone-in-fresh-interpreter"]
+REQUIRED_CATS = ["kind:xy", "alone-kind:xy", "alone-kind:spot", "alone-kind:chain", "kind:chain", "kind:spot", "kind:discrete", "history:abandon", "history:full", "history:otherfold", "history:error",
                  "history:insolvency", "history:windowed", "scenario:K3-construction", "kind:default-state"]
 TECHNIQUE = "runtime monitoring: twin-run comparison of canonical call digests; exhaustive call-level interleavings of two short episodes"
 LEVEL_TEXT = ("Exploration plus an exhaustive enumeration of the call-level interleavings of two short episodes for a few environment "
@@ -92,8 +93,36 @@ class FP(Feature):
         return np.array([[float(self.calls), self.peak if self.peak > -np.inf else 0.0]])
 
 
+def build_xy(seed):
+    """The tabular front-end with a transformer given by its shortcut name."""
+    import pandas as pd
+    from tradingenv.env import TradingEnvXY
+    rng = random.Random(seed)
+    nrng = np.random.RandomState(seed % (2 ** 32))
+    n = rng.randint(40, 80)
+    dates = pd.date_range("2021-03-01", periods=n, freq="B")
+    X = pd.DataFrame(nrng.normal(rng.uniform(-2, 2), rng.uniform(0.5, 3), [n, 3]), dates, columns=["f0", "f1", "f2"])
+    Y = pd.DataFrame(100 * np.exp(np.cumsum(nrng.normal(0, 0.01, [n, 2]), 0)), dates, columns=["a", "b"])
+    folds = {"training-set": [dates[0].to_pydatetime(), dates[-1].to_pydatetime()],
+             "late": [dates[n // 2].to_pydatetime(), dates[-1].to_pydatetime()]}
+    env = TradingEnvXY(X, Y, transformer=rng.choice(["z-score", "yeo-johnson", None]), window=rng.choice([1, 3]),
+                       folds=folds, steps_delay=rng.choice([0, 1]), transformer_end=rng.choice([None, dates[n // 2]]))
+    env._vf_default_state = False
+    acts = [np.array([rng.uniform(-0.6, 0.6), rng.uniform(-0.4, 0.4)]) for _ in range(n)]
+    return env, acts, np.array([9., 9.]), True
+
+
+def alone_episode(spec, fold):
+    """What an environment built from `spec` produces when it is the only one the interpreter has ever seen
+    (called in a fresh interpreter through vf.alone)."""
+    env, acts, _, _ = build(spec)
+    return episode(env, acts, fold)
+
+
 def build(spec):
     kind, seed = spec
+    if kind == "xy":
+        return build_xy(seed)
     rng = random.Random(seed)
     default_state = kind == "default-state"
     if kind == "chain":
@@ -216,7 +245,7 @@ def compare(ctx, clause, got, want, default_state, **detail):
     return False
 
 
-KINDS = ["chain", "spot", "discrete", "default-state", "spot", "chain"]
+KINDS = ["chain", "spot", "discrete", "default-state", "spot", "chain", "xy"]
 
 
 def k3_scenario(ctx):
@@ -238,11 +267,35 @@ def k3_scenario(ctx):
     ctx.nontrivial = True
 
 
+def alone_scenario(ctx, i):
+    """An environment in the busy check process (which has built hundreds of environments before, and builds
+    and runs two more of the same kind right before this one) against the same environment ALONE in a fresh
+    interpreter: every call must return the same thing."""
+    kind = ["xy", "spot", "chain", "xy", "discrete"][(i // 50) % 5]
+    seed = ctx.np_seed * 2 % 10 ** 6
+    fold = ctx.rng.choice(["training-set", "late"])
+    for k in (1, 2):
+        other, acts_o, _, _ = build((kind, seed + k))
+        episode(other, acts_o, "training-set", upto=3)
+    env, acts, _, _ = build((kind, seed))
+    got = episode(env, acts, fold)
+    want = alone.call("c10", "alone_episode", (kind, seed), fold)
+    compare(ctx, "C10:same-as-alone-in-fresh-interpreter", got, want, False, spec=(kind, seed), fold=fold)
+    ctx.cat("scenario:alone-in-fresh-interpreter", "alone-kind:" + kind)
+    ctx.sample = {"scenario": "busy process vs fresh interpreter", "spec": (kind, seed), "fold": fold, "calls": len(got)}
+    ctx.nontrivial = True
+
+
 def case(ctx, i, tier):
     if i % 50 == 49:
         return k3_scenario(ctx)
+    if i % 50 == 7:
+        return alone_scenario(ctx, i)
     rng = ctx.rng
-    specA = (KINDS[i % len(KINDS)], ctx.np_seed * 2 % 10 ** 6)
+    kindA = KINDS[i % len(KINDS)]
+    if kindA == "xy" and (i // len(KINDS)) % 3:
+        kindA = "spot"          # (tabular environments are slow to build: every third turn only)
+    specA = (kindA, ctx.np_seed * 2 % 10 ** 6)
     specB = (rng.choice(["chain", "spot", "discrete"]) if specA[0] != "default-state" else "default-state", ctx.np_seed * 2 % 10 ** 6 + 1)
     fold = rng.choice(["training-set", "late"])
     ctx.cat("kind:" + specA[0], "kind:" + specB[0])
